@@ -20,7 +20,7 @@ from fractions import Fraction
 import z3
 
 from . import sym
-from .sym import (Inapplicable, PathEnd, SBool, SInt, SNum, SStr, cur, is_sym, mkbool,
+from .sym import (Inapplicable, PathEnd, SBool, SInt, SNum, SStr, SEnum, cur, is_sym, mkbool,
                   sformat_int, sformat_str, snot, sstr_int, strunc, sfloor, zint, zreal)
 
 
@@ -251,6 +251,16 @@ class Interp:
             return container.contains(item)
         if isinstance(container, str) and isinstance(item, SStr):
             raise Inapplicable("symbolic needle in concrete string")
+        if isinstance(item, SEnum):
+            import enum
+            if isinstance(container, enum.EnumMeta):
+                return container is item.cls
+            if isinstance(container, (list, tuple)):
+                for x in container:
+                    if self.truth(item == x):
+                        return True
+                return False
+            raise Inapplicable("symbolic enum member in a container")
         f = self.repo_dunder(container, "__contains__")
         if f is not None:
             return self.call_function(f, (container, item), {})
@@ -333,11 +343,14 @@ class Interp:
                 # float(decimal string): correctly rounded double of the exact decimal (std model)
                 e = sym.decimal_view(x)
                 p = cur()
+                if sym._integrality(e) is True and p.entails(e < sym.TWO53):
+                    return SNum(e, "float")
                 r = p.fresh_real("fstr")
                 p.assume(z3.And(r - e <= sym.U * e, e - r <= sym.U * e))
-                k = p.fresh_int("ik")
-                p.assume(z3.And(z3.ToReal(k) <= e, e < z3.ToReal(k) + 1))
-                p.assume(z3.Implies(z3.And(z3.ToReal(k) == e, k < sym.TWO53), r == e))
+                if sym._integrality(e) is not False:
+                    k = p.fresh_int("ik")
+                    p.assume(z3.And(z3.ToReal(k) <= e, e < z3.ToReal(k) + 1))
+                    p.assume(z3.Implies(z3.And(z3.ToReal(k) == e, k < sym.TWO53), r == e))
                 p.float_facts.append(("fromstr", e, r))
                 return SNum(r, "float")
             return float(x)
@@ -397,6 +410,8 @@ class Interp:
                 return any(k in (float, Number, object) for k in ts)
             if isinstance(x, SStr):
                 return any(k in (str, object) for k in ts)
+            if isinstance(x, SEnum):
+                return any(isinstance(k, type) and issubclass(x.cls, k) for k in ts)
             return isinstance(x, t)
 
         def b_any(it):
@@ -477,7 +492,26 @@ class Interp:
                 return datetime.timedelta(microseconds=us)
             return SymTimedelta(us)
 
-        ov = {builtins.int: b_int, builtins.float: b_float, builtins.str: b_str, builtins.len: b_len,
+        def b_type(x, *rest):
+            if rest:
+                return type(x, *rest)
+            if isinstance(x, SEnum):
+                return x.cls
+            if isinstance(x, SInt):
+                return int
+            if isinstance(x, SBool):
+                return bool
+            if isinstance(x, SStr):
+                return str
+            if isinstance(x, SNum):
+                if x.kind == "float":
+                    return float
+                if x.kind == "frac":
+                    return Fraction
+                raise Inapplicable("type() of an int-or-float Number")
+            return type(x)
+
+        ov = {builtins.type: b_type, builtins.int: b_int, builtins.float: b_float, builtins.str: b_str, builtins.len: b_len,
               builtins.bool: b_bool, builtins.abs: b_abs, builtins.isinstance: b_isinstance,
               builtins.any: b_any, builtins.all: b_all, builtins.hash: b_hash, builtins.round: b_round,
               builtins.divmod: b_divmod, math.floor: b_floor,
@@ -507,6 +541,17 @@ class Interp:
             return SInt(Interp._hash_fn["real"](zreal(x)))
         if isinstance(x, bool):
             return SInt(Interp._hash_fn["real"](zreal(int(x))))
+        import enum
+        if isinstance(x, SEnum) or isinstance(x, enum.Enum):
+            # enum members: a code per (class, index); symbolic members share the function
+            cls = x.cls if isinstance(x, SEnum) else type(x)
+            idx = x.t if isinstance(x, SEnum) else z3.IntVal(list(cls).index(x))
+            classes = cur().ghost.setdefault("enumclasses", [])
+            if cls not in classes:
+                classes.append(cls)
+            if "enum" not in Interp._hash_fn:
+                Interp._hash_fn["enum"] = z3.Function("hash_enum", z3.IntSort(), z3.IntSort(), z3.IntSort())
+            return SInt(Interp._hash_fn["enum"](z3.IntVal(classes.index(cls)), idx))
         # enums / None / strings: concrete objects -> a stable symbolic code per distinct object
         key = ("hashcode", x if isinstance(x, (str, type(None))) else id(x))
         codes = cur().ghost.setdefault("hashcodes", {})
